@@ -7,6 +7,7 @@
   spare capacity behind the datagram.
 -/
 import Knx.RoundTrip
+import Knx.RoundTripDib
 import Knx.Gen.Wire
 
 namespace Props.C02
@@ -20,17 +21,20 @@ theorem cemi_encode_decode (m : Cemi) (h : m.ok = true) (tl : List Byte) :
     unpackCemi.run { vis := encCemi m, tail := tl } = .ok (m, (encCemi m).length) :=
   rt_cemi m h tl
 
-/-- KNXnet/IP frames of every service type except the two that carry description blocks
-    (`_partial`: SearchRes / DescriptionRes are covered by the correspondence and the oracle of
-    this check, their Lean round-trip proof is not finished).  The decoder accepts the whole
-    encoding, except that it leaves the 4-byte CRD of a positive connect response unread
-    (`unreadTail`). -/
-theorem frame_encode_decode_partial (v : Service) (h : v.okSimple = true) :
+/-- **KNXnet/IP frames of every encodable service type** — search / description requests and
+    responses, the connection services, tunnelling and routing frames, unknown services.
+    `Service.ok`: the cEMI payload satisfies `Cemi.ok`; a negative connect response carries no
+    endpoint; device blocks have their fixed-size fields (6-byte serial, 4-byte multicast address,
+    6-byte hardware address) and a Latin-1 name of at most 29 characters without NUL; at most 126
+    service families (the length octet); a description response carries its blocks' own type
+    codes and no unknown blocks (the encoder emits none).  The decoder accepts the whole encoding,
+    except that it leaves the 4-byte CRD of a positive connect response unread (`unreadTail`). -/
+theorem frame_encode_decode (v : Service) (h : v.ok = true) :
     ∃ frame, encFrame v = some frame ∧
       ∀ tl, unpackService.run { vis := frame, tail := tl } = .ok (v, frame.length - unreadTail v) := by
-  obtain ⟨body, hb, hrt⟩ := bodyRT_simple v h
+  obtain ⟨body, hb, hrt⟩ := bodyRT_all v h
   have hs : ∃ sz, sizeBody v = some sz := by
-    cases v <;> simp [sizeBody, Service.okSimple] at h ⊢
+    cases v <;> simp [sizeBody, Service.ok, Service.okSimple] at h ⊢
   obtain ⟨sz, hs⟩ := hs
   refine rt_frame_of_body v body sz hb hs hrt ?_
   cases v <;> simp only [unreadTail, Nat.zero_le]
@@ -44,14 +48,23 @@ theorem frame_encode_decode_partial (v : Service) (h : v.okSimple = true) :
     simp [encHostInfo, encU16]
   · exact Nat.zero_le _
 
+theorem ok_of_okSimple (v : Service) (h : v.okSimple = true) : v.ok = true := by
+  cases v <;> first | exact h | simp [Service.okSimple] at h
+
+/-- the earlier statement (services without description blocks), kept as a corollary -/
+theorem frame_encode_decode_partial (v : Service) (h : v.okSimple = true) :
+    ∃ frame, encFrame v = some frame ∧
+      ∀ tl, unpackService.run { vis := frame, tail := tl } = .ok (v, frame.length - unreadTail v) :=
+  frame_encode_decode v (ok_of_okSimple v h)
+
 /-- relay stability: a decoded tunnelling / routing frame whose cEMI message is canonical
     (`Cemi.ok`: the only accepted-but-not-canonical messages are unnumbered units with non-zero
     sequence bits, i.e. reserved bits set) re-encodes to a frame that decodes to the same value. -/
 theorem relay_stable (s : GoSlice) (v : Service) (n : Nat)
-    (_hdec : unpackService.run s = .ok (v, n)) (hv : v.okSimple = true) :
+    (_hdec : unpackService.run s = .ok (v, n)) (hv : v.ok = true) :
     ∃ frame, encFrame v = some frame ∧
       ∀ tl, ∃ k, unpackService.run { vis := frame, tail := tl } = .ok (v, k) := by
-  obtain ⟨frame, h1, h2⟩ := frame_encode_decode_partial v hv
+  obtain ⟨frame, h1, h2⟩ := frame_encode_decode v hv
   exact ⟨frame, h1, fun tl => ⟨_, h2 tl⟩⟩
 
 /-! ### dispatch tables, regenerated from the source on every run -/
@@ -103,5 +116,9 @@ theorem dispatch_tables_match_model :
 example : (Service.tunnelReq 7 3 (.ldataInd (LData.mk [] 0xbc 0xe0 0x1101 0x0902
     (.app false 0 2 [0x01])))).okSimple = true := by decide
 example : (Service.connRes 9 0 (HostInfo.mk 1 10 0 0 1 3671)).okSimple = true := by decide
+example : (Service.descrRes ⟨⟨1, 2, 0, 0x1101, 0, [0, 1, 2, 3, 4, 5], [224, 0, 23, 12], [1, 2, 3, 4, 5, 6], [75, 78, 88]⟩,
+    ⟨2, [(2, 1), (4, 1)]⟩, []⟩).ok = true := by decide
+example : (Service.searchRes (HostInfo.mk 1 10 0 0 1 3671)
+    ⟨1, 2, 0, 0x1101, 0, [0, 1, 2, 3, 4, 5], [224, 0, 23, 12], [1, 2, 3, 4, 5, 6], []⟩ ⟨2, []⟩).ok = true := by decide
 
 end Props.C02
